@@ -18,7 +18,7 @@ PROP = 'C06'
 LEVEL = 'fault_enumeration'
 BATCH = 300
 TIERS = {
-    'quick': {'runs': 40000, 'budget': 45},
+    'quick': {'runs': 400000, 'budget': 30},
     'thorough': {'runs': 4_000_000, 'budget': 480},
 }
 RULE = ('bodies: seeded well-formed multipart bodies (boundaries over RFC 2046 bchars incl. hyphen-only and '
